@@ -334,6 +334,8 @@ Ltac proj_cbn :=
 
 Ltac acct :=
   proj_cbn; rewrite ?submitted_app, ?ended_app, ?app_length;
+  try match goal with H : sh_jobs ?s = _ |- _ => rewrite H end;
+  try match goal with |- context [if ?b then _ else _] => destruct b end;
   repeat match goal with
          | H : nth_error ?ws ?w = Some ?y |- context [nbusy (updw ?w ?x ?ws)] =>
              let E := fresh in pose proof (nbusy_updw ws w x y H) as E; revert E
